@@ -16,4 +16,15 @@ Shaped == \E i \in DOMAIN rs : /\ RuleConstant(rs[i])
 Emit == (Len(rs) >= 2 /\ Shaped) =>
            PrintT(<<"REPLAY", ToJson([src |-> D!DisplayExpr(Expr), constant |-> IsConstant(Expr),
                                       sound |-> (IsConstant(Expr) => ConstantDay(Expr, DayTiling(Expr, Today, NoCtx)))])>>)
+
+(* Second family (Gen_RuleMix.cfg): sequences that combine a closed rule, a span passing midnight and - with three rules - a   *)
+(* fallback rule, on Mondays / Tuesdays / both / Wednesdays. This is the zone where the day fold has most case analysis     *)
+(* (replacement, overlay, spill of a rule not matching the day, fallback); the sentences go through the real normaliser      *)
+(* (C07: same meaning before and after) and the real day evaluation (C01).                                                  *)
+Wraps(r) == r.time[1].e.m <= r.time[1].s.m \/ r.time[1].e.m > 1440
+Mixed == /\ Len(rs) >= 2
+         /\ \E i \in DOMAIN rs : rs[i].kind = "closed"
+         /\ \E i \in DOMAIN rs : rs[i].kind # "closed" /\ Wraps(rs[i])
+         /\ (Len(rs) = 3 => \E i \in DOMAIN rs : rs[i].op = "fallback")
+EmitMix == Mixed => PrintT(<<"REPLAY", ToJson([text |-> D!DisplayExpr(Expr), expect |-> "accept"])>>)
 =============================================================================
